@@ -133,6 +133,12 @@ impl Parser {
             }
 
             let ident_span = ident_node.as_span();
+
+            if ident_node.as_rule() != Rule::ident {
+                // e.g. `self: T` in a class method: `self` was consumed above and its type is left over
+                return Err(new_err(ident_span, &file_name, "expected a parameter name here (hint: `self` does not take a type signature)".to_owned()));
+            }
+
             let mut ident = Self::ident(ident_node)?;
 
             let ty: Option<Node> = children.next();
